@@ -290,3 +290,328 @@ theorem parsePlayersAndTeams_spec (cfg : Config) (st : State) (h : LayoutOk cfg 
   rfl
 
 end Gd.Gs3
+
+/-! ### the variables -/
+
+namespace Gd.Gs3
+open Gd Gd.Gs3.Spec
+
+/-- the variables without the keys in `ks` -/
+def rem (ks : List Bytes) (vars : Vars) : Vars := vars.filter fun p => !ks.contains p.1
+
+theorem rem_nil (vars : Vars) : rem [] vars = vars := by simp [rem]
+
+theorem mapGet_filter (vars : Vars) (q : Bytes → Bool) (k : Bytes) (hq : q k = true) :
+    mapGet (vars.filter fun p => q p.1) k = mapGet vars k := by
+  induction vars with
+  | nil => rfl
+  | cons p r ih =>
+    obtain ⟨k', v'⟩ := p
+    simp only [List.filter_cons]
+    by_cases hk : q k' = true
+    · simp only [hk, ↓reduceIte, mapGet, ih]
+    · have hne : (k' == k) = false := by
+        rw [beq_eq_false_iff_ne]
+        intro e; subst e; exact hk hq
+      simp only [hk, Bool.false_eq_true, ↓reduceIte, mapGet, hne, ih]
+
+theorem mapTake_rem (ks : List Bytes) (vars : Vars) (k : Bytes) (hk : ks.contains k = false) :
+    mapTake (rem ks vars) k = (mapGet vars k, rem (ks ++ [k]) vars) := by
+  unfold mapTake
+  congr 1
+  · exact mapGet_filter vars (fun x => !ks.contains x) k (by rw [hk]; rfl)
+  · simp only [rem, Valve.mapRemove, List.filter_filter]
+    congr 1
+    funext p
+    simp only [List.contains_eq_mem, List.mem_append, List.mem_singleton]
+    by_cases h1 : p.1 ∈ ks <;> by_cases h2 : p.1 = k <;> simp [h1, h2, bne]
+
+theorem takeReq_rem (ks : List Bytes) (vars : Vars) (k : String) (v : Bytes) (hk : ks.contains (asciiBytes k) = false)
+    (hv : mapGet vars (asciiBytes k) = some v) :
+    takeReq (rem ks vars) k = .ok (v, rem (ks ++ [asciiBytes k]) vars) := by
+  unfold takeReq
+  rw [mapTake_rem ks vars _ hk, hv]
+
+def stripPlus (s : Bytes) : Bytes := match s with | 43 :: r => r | s => s
+def puCore (bits : Nat) (ds : Bytes) : Option Nat :=
+  if ds.isEmpty || !ds.all isDigit then none
+  else if digitsVal ds < 2 ^ bits then some (digitsVal ds) else none
+
+theorem parseUnsigned_eq (bits : Nat) (s : Bytes) : parseUnsigned bits s = puCore bits (stripPlus s) := by
+  unfold parseUnsigned stripPlus puCore
+  rfl
+
+theorem puCore_mono (b b' : Nat) (hb : b ≤ b') (ds : Bytes) (n : Nat) (h : puCore b ds = some n) :
+    puCore b' ds = some n ∧ n < 2 ^ b := by
+  unfold puCore at h ⊢
+  by_cases h1 : (ds.isEmpty || !ds.all isDigit) = true
+  · simp [h1] at h
+  · by_cases h2 : digitsVal ds < 2 ^ b
+    · have h3 : digitsVal ds < 2 ^ b' := Nat.lt_of_lt_of_le h2 (Nat.pow_le_pow_right (by omega) hb)
+      simp only [h1, h2, h3, ↓reduceIte, Bool.false_eq_true] at h ⊢
+      cases h
+      exact ⟨rfl, h2⟩
+    · simp [h1, h2] at h
+
+theorem parseUnsigned_mono (b b' : Nat) (hb : b ≤ b') (v : Bytes) (n : Nat) (h : parseUnsigned b v = some n) :
+    parseUnsigned b' v = some n := by
+  rw [parseUnsigned_eq] at h ⊢
+  exact (puCore_mono b b' hb _ n h).1
+
+theorem parseUnsigned_lt (b : Nat) (v : Bytes) (n : Nat) (h : parseUnsigned b v = some n) : n < 2 ^ b := by
+  rw [parseUnsigned_eq] at h
+  exact (puCore_mono b b (Nat.le_refl _) _ n h).2
+
+theorem passwordValue_flag (v : Bytes) (h : isFlag v = true) : passwordValue v = .ok (flagOf v) := by
+  unfold passwordValue flagOf parseBool
+  simp only [isFlag, Bool.or_eq_true, beq_iff_eq] at h
+  simp only
+  by_cases h1 : asciiLower v = asciiBytes "true"
+  · simp [h1]
+  · by_cases h2 : asciiLower v = asciiBytes "false"
+    · have : (asciiBytes "false" == asciiBytes "true") = false := by decide
+      simp [h2, this]
+    · have hsome : (parseUnsigned 8 (asciiLower v)).isSome = true := by
+        rcases h with (h | h) | h
+        · exact absurd h h1
+        · exact absurd h h2
+        · exact h
+      have b1 : (asciiLower v == asciiBytes "true") = false := by simpa using h1
+      have b2 : (asciiLower v == asciiBytes "false") = false := by simpa using h2
+      cases hp : parseUnsigned 8 (asciiLower v) with
+      | none => rw [hp] at hsome; cases hsome
+      | some n => simp [b1, b2, hp, parseU, okOr]
+
+theorem tournament_flag (v : Bytes) (h : isBoolText v = true) : parseBool (asciiLower v) = some (flagOf v) := by
+  unfold parseBool flagOf
+  simp only [isBoolText, Bool.or_eq_true, beq_iff_eq] at h
+  simp only
+  rcases h with h | h
+  · simp [h]
+  · have : (asciiBytes "false" == asciiBytes "true") = false := by decide
+    simp [h, this]
+
+/-- what `wf` says about the variables, as propositions -/
+structure VarsOk (st : State) : Prop where
+  items : ∀ p ∈ st.vars, okItem p.1 = true ∧ okStr p.2 = true
+  distinct : Valve.Spec.distinctKeys st.vars = true
+  hostname : ∃ v, var st "hostname" = some v
+  mapname : ∃ v, var st "mapname" = some v
+  gametype : ∃ v, var st "gametype" = some v
+  gamever : ∃ v, var st "gamever" = some v
+  password : ∃ v, var st "password" = some v ∧ isFlag v = true
+  maxplayers : ∃ v n, var st "maxplayers" = some v ∧ parseUnsigned 32 v = some n
+  minplayers : ∀ v, var st "minplayers" = some v → ∃ n, parseUnsigned 8 v = some n
+  numplayers : ∀ v, var st "numplayers" = some v → ∃ n, parseUnsigned 32 v = some n
+  tournament : ∀ v, var st "tournament" = some v → isBoolText v = true
+  listed : st.players.length < 2 ^ 32
+
+theorem typed_rem (vars : Vars) :
+    rem [asciiBytes "maxplayers", asciiBytes "minplayers", asciiBytes "numplayers", asciiBytes "hostname",
+      asciiBytes "mapname", asciiBytes "password", asciiBytes "gametype", asciiBytes "gamever", asciiBytes "tournament"] vars
+      = vars.filter fun p => !typedKeys.contains p.1 := by
+  unfold rem typedKeys
+  congr 1
+  funext p
+  congr 1
+  simp only [List.contains_eq_mem, List.mem_cons, List.not_mem_nil, or_false, decide_eq_decide]
+  constructor <;> (intro h; rcases h with h | h | h | h | h | h | h | h | h <;> simp [h])
+
+/-- the typed fields and the unused entries from the variables of a well-formed state -/
+theorem fields_spec (st : State) (h : VarsOk st) :
+    buildFields st.vars st.players st.teams = .ok (expected st) := by
+  unfold buildFields
+  obtain ⟨vhost, hhost⟩ := h.hostname
+  obtain ⟨vmap, hmap⟩ := h.mapname
+  obtain ⟨vtype, htype⟩ := h.gametype
+  obtain ⟨vver, hver⟩ := h.gamever
+  obtain ⟨vpw, hpw, hflag⟩ := h.password
+  obtain ⟨vmax, nmax, hmax, hpmax⟩ := h.maxplayers
+  simp only [var] at hhost hmap htype hver hpw hmax
+  -- maxplayers
+  have s1 := takeReq_rem [] st.vars "maxplayers" vmax (by decide) hmax
+  rw [rem_nil] at s1
+  rw [s1]
+  simp only [Res.bind_ok, parseU, hpmax, okOr, List.nil_append]
+  -- minplayers
+  have s2 : takeMin (rem [asciiBytes "maxplayers"] st.vars)
+      = .ok ((var st "minplayers").map (fun v => numOf 8 (some v)), rem [asciiBytes "maxplayers", asciiBytes "minplayers"] st.vars) := by
+    unfold takeMin
+    rw [mapTake_rem _ _ _ (by decide)]
+    cases hmin : mapGet st.vars (asciiBytes "minplayers") with
+    | none => simp [var, hmin]
+    | some v =>
+      obtain ⟨n, hn⟩ := h.minplayers v (by simpa [var] using hmin)
+      simp [var, hmin, parseU, hn, okOr, numOf]
+  rw [s2]
+  simp only [Res.bind_ok]
+  -- numplayers
+  have s3 : takeOnline (rem [asciiBytes "maxplayers", asciiBytes "minplayers"] st.vars) st.players.length
+      = .ok (max (numOf 64 (var st "numplayers")) st.players.length,
+          rem [asciiBytes "maxplayers", asciiBytes "minplayers", asciiBytes "numplayers"] st.vars) := by
+    unfold takeOnline
+    rw [mapTake_rem _ _ _ (by decide)]
+    have hl := h.listed
+    cases hnum : mapGet st.vars (asciiBytes "numplayers") with
+    | none =>
+      simp only [var, hnum, numOf, Option.bind_none, Option.getD_none, List.cons_append, List.nil_append]
+      rw [Nat.mod_eq_of_lt hl]
+      simp
+    | some v =>
+      obtain ⟨n, hn⟩ := h.numplayers v (by simpa [var] using hnum)
+      have hn64 := parseUnsigned_mono 32 64 (by omega) v n hn
+      have hlt := parseUnsigned_lt 32 v n hn
+      simp only [var, hnum, parseU, hn64, okOr, Res.bind_ok, numOf, Option.bind_some, Option.getD_some,
+        List.cons_append, List.nil_append, Res.pure_eq]
+      congr 2
+      split
+      · rw [Nat.mod_eq_of_lt hl]; omega
+      · rw [Nat.mod_eq_of_lt hlt]; omega
+  rw [s3]
+  simp only [Res.bind_ok]
+  -- hostname, mapname
+  rw [takeReq_rem _ st.vars "hostname" vhost (by decide) hhost]
+  simp only [Res.bind_ok, List.cons_append, List.nil_append]
+  rw [takeReq_rem _ st.vars "mapname" vmap (by decide) hmap]
+  simp only [Res.bind_ok, List.cons_append, List.nil_append]
+  -- password
+  have s6 : hasPassword (rem [asciiBytes "maxplayers", asciiBytes "minplayers", asciiBytes "numplayers",
+        asciiBytes "hostname", asciiBytes "mapname"] st.vars)
+      = .ok (flagOf vpw, rem [asciiBytes "maxplayers", asciiBytes "minplayers", asciiBytes "numplayers",
+        asciiBytes "hostname", asciiBytes "mapname", asciiBytes "password"] st.vars) := by
+    unfold hasPassword
+    rw [mapTake_rem _ _ _ (by decide), hpw]
+    simp [passwordValue_flag vpw hflag]
+  rw [s6]
+  simp only [Res.bind_ok]
+  rw [takeReq_rem _ st.vars "gametype" vtype (by decide) htype]
+  simp only [Res.bind_ok, List.cons_append, List.nil_append]
+  rw [takeReq_rem _ st.vars "gamever" vver (by decide) hver]
+  simp only [Res.bind_ok, List.cons_append, List.nil_append]
+  -- tournament
+  have s9 : takeTournament (rem [asciiBytes "maxplayers", asciiBytes "minplayers", asciiBytes "numplayers",
+        asciiBytes "hostname", asciiBytes "mapname", asciiBytes "password", asciiBytes "gametype", asciiBytes "gamever"] st.vars)
+      = .ok ((expected st).tournament, st.vars.filter fun p => !typedKeys.contains p.1) := by
+    unfold takeTournament
+    rw [mapTake_rem _ _ _ (by decide)]
+    simp only [List.cons_append, List.nil_append, typed_rem]
+    cases ht : mapGet st.vars (asciiBytes "tournament") with
+    | none =>
+      have : parseBool (asciiBytes "true") = some true := by decide
+      simp [expected, var, ht, this]
+    | some v =>
+      have := tournament_flag v (h.tournament v (by simpa [var] using ht))
+      simp [expected, var, ht, this]
+  rw [s9]
+  simp only [Res.bind_ok, Res.pure_eq, expected, var, hhost, hmap, htype, hver, hpw, hmax, Option.getD_some, numOf,
+    Option.bind_some, hpmax]
+
+end Gd.Gs3
+
+/-! ### everything `query` does with the packets of a well-formed reply -/
+
+namespace Gd.Gs3
+open Gd Gd.Gs3.Spec
+
+/-- the thirteen conjuncts of `wf` -/
+theorem wf_parts (cfg : Config) (st : State) (h : wf cfg st = true) :
+    wfVars st = true ∧ st.players.all wfPlayer = true ∧ st.teams.all wfTeam = true ∧ st.players.length < 2 ^ 32
+    ∧ (st.pids.all fun l => l.length == st.players.length && l.all okItem) = true
+    ∧ cfg.layout.flatten.all (wfSlice st) = true ∧ covered st cfg.layout.flatten = true
+    ∧ cfg.layout.isEmpty = false ∧ (cfg.layout.drop 1).all (fun ss => !ss.isEmpty) = true ∧ cfg.layout.length ≤ 128
+    ∧ -(2 ^ 31 : Int) ≤ cfg.challenge ∧ cfg.challenge < 2 ^ 31
+    ∧ (dataPackets cfg st).all (fun d => d.length ≤ PACKET_SIZE) = true := by
+  simp only [wf, Bool.and_eq_true, decide_eq_true_eq, Bool.not_eq_true'] at h
+  obtain ⟨h, h13⟩ := h
+  obtain ⟨h, h12⟩ := h
+  obtain ⟨h, h11⟩ := h
+  obtain ⟨h, h10⟩ := h
+  obtain ⟨h, h9⟩ := h
+  obtain ⟨h, h8⟩ := h
+  obtain ⟨h, h7⟩ := h
+  obtain ⟨h, h6⟩ := h
+  obtain ⟨h, h5⟩ := h
+  obtain ⟨h, h4⟩ := h
+  obtain ⟨h, h3⟩ := h
+  obtain ⟨h1, h2⟩ := h
+  exact ⟨h1, h2, h3, h4, h5, h6, h7, h8, h9, h10, h11, h12, h13⟩
+
+theorem wf_vars (cfg : Config) (st : State) (h : wf cfg st = true) : VarsOk st := by
+  obtain ⟨hv, _, _, hlisted, _⟩ := wf_parts cfg st h
+  simp only [wfVars, Bool.and_eq_true] at hv
+  obtain ⟨hv, t9⟩ := hv
+  obtain ⟨hv, t8⟩ := hv
+  obtain ⟨hv, t7⟩ := hv
+  obtain ⟨hv, t6⟩ := hv
+  obtain ⟨hv, t5⟩ := hv
+  obtain ⟨hv, t4⟩ := hv
+  obtain ⟨hv, t3⟩ := hv
+  obtain ⟨hv, t2⟩ := hv
+  obtain ⟨hv, t1⟩ := hv
+  obtain ⟨hitems, hdist⟩ := hv
+  have some_of : ∀ {o : Option Bytes}, o.isSome = true → ∃ v, o = some v := fun {o} ho => Option.isSome_iff_exists.mp ho
+  have any_of : ∀ {o : Option Bytes} {q : Bytes → Bool}, o.any q = true → ∃ v, o = some v ∧ q v = true := by
+    intro o q ho
+    cases o with
+    | none => simp at ho
+    | some v => exact ⟨v, rfl, by simpa using ho⟩
+  have all_of : ∀ {o : Option Bytes} {q : Bytes → Bool}, o.all q = true → ∀ v, o = some v → q v = true := by
+    intro o q ho v hv
+    subst hv
+    simpa using ho
+  refine
+    { items := ?_, distinct := hdist, hostname := some_of t1, mapname := some_of t2, gametype := some_of t3,
+      gamever := some_of t4, password := any_of t5, maxplayers := ?_, minplayers := ?_, numplayers := ?_,
+      tournament := fun v hv => all_of t9 v hv, listed := hlisted }
+  · intro p hp
+    have := List.all_eq_true.mp hitems p hp
+    simpa using this
+  · obtain ⟨v, hv, hq⟩ := any_of t6
+    obtain ⟨n, hn⟩ := Option.isSome_iff_exists.mp hq
+    exact ⟨v, n, hv, hn⟩
+  · intro v hv
+    exact Option.isSome_iff_exists.mp (all_of t7 v hv)
+  · intro v hv
+    exact Option.isSome_iff_exists.mp (all_of t8 v hv)
+
+theorem wf_layout (cfg : Config) (st : State) (h : wf cfg st = true) : LayoutOk cfg st := by
+  obtain ⟨_, hp, ht, _, hpid, hsl, hcov, _⟩ := wf_parts cfg st h
+  refine ⟨fun sl hsl' => List.all_eq_true.mp hsl sl hsl', hcov, fun p hp' => List.all_eq_true.mp hp p hp',
+    fun t ht' => List.all_eq_true.mp ht t ht', ?_⟩
+  intro l hl
+  rw [hl] at hpid
+  simp only [Option.all_some, Bool.and_eq_true, beq_iff_eq] at hpid
+  exact ⟨hpid.1, fun v hv => List.all_eq_true.mp hpid.2 v hv⟩
+
+/-- `query`'s post-processing on the payloads of a well-formed reply gives the expected response -/
+theorem buildResponse_spec (cfg : Config) (st : State) (h : wf cfg st = true) :
+    buildResponse (payloads cfg st) = .ok (expected st) := by
+  have hv := wf_vars cfg st h
+  have hl := wf_layout cfg st h
+  obtain ⟨_, _, _, _, _, _, _, hne, _⟩ := wf_parts cfg st h
+  cases hlay : cfg.layout with
+  | nil => rw [hlay] at hne; cases hne
+  | cons first rest =>
+    have hp := parsePlayersAndTeams_spec cfg st hl
+    rw [hlay] at hp
+    unfold buildResponse payloads
+    simp only [hlay, List.head?_cons, okOr, Res.bind_ok, dataToMap_encVars st.vars hv.items hv.distinct,
+      List.drop_succ_cons, List.drop_zero]
+    simp only [List.map_cons] at hp
+    rw [hp]
+    exact fields_spec st hv
+
+/-- `query_vars`'s post-processing on them gives exactly the variables sent -/
+theorem buildVars_spec (cfg : Config) (st : State) (h : wf cfg st = true) :
+    buildVars (payloads cfg st) = .ok st.vars := by
+  have hv := wf_vars cfg st h
+  unfold buildVars payloads
+  cases hlay : cfg.layout with
+  | nil =>
+    have := dataToMap_encVars st.vars hv.items hv.distinct []
+    simp only [List.append_nil] at this
+    simp [okOr, this]
+  | cons first rest =>
+    simp [okOr, dataToMap_encVars st.vars hv.items hv.distinct]
+
+end Gd.Gs3
